@@ -435,10 +435,98 @@ def run(ctx: Ctx) -> Result:
 
     res = run_shards(ctx, shard, list(range(nshards)))
     res.merge(cli_differential(ctx))
+    res.merge(filter_fault_stage(ctx))
+    res.obligations.setdefault("code-filter-faults", False)
     res.obligations.setdefault("cli-run-differential", False)
     for kind in ("LST", "DCT", "SET", "TUP", "GA", "GAR"):
         res.obligations.setdefault(f"hooks-fire:{kind}", False)
     res.bounds.update({"tripwire_kinds": 16, "positions": len(POSITIONS), "fault_sets": len(fault_sets()), "exits": 2, "profilers": 2})
+    return res
+
+
+def filter_fault_stage(ctx: Ctx) -> Result:
+    """The code filter is the first thing the tracer consults, on every call and return event. (1) The SHIPPED default filter
+    on a function whose file name lies under a symlink loop (pathlib's resolve() raises RuntimeError for it); (2) a user filter
+    that raises at its i-th consultation, every i of a three-call workload, alone and in pairs. In every case the workload
+    returns what it returns untraced, nothing is raised, the previous profiler is back and the logger was flushed once."""
+    from monkeytype.config import default_code_filter
+    from monkeytype.tracing import trace_calls
+
+    res = Result()
+    d = ctx.tmp / "c03_filter"
+    d.mkdir(exist_ok=True)
+    loop = d / "loop"
+    if not os.path.islink(loop):
+        os.symlink("loop", loop)
+    ns: Dict[str, Any] = {"__name__": "c03_looped"}
+    exec(compile("def inner(x):\n    return [x]\n\n\ndef work(x):\n    return (inner(x), inner(str(x)))\n", str(loop / "m.py"), "exec"), ns)
+    want = ns["work"](1)
+
+    class Lg:
+        def __init__(self):
+            self.flushed = 0
+            self.n = 0
+
+        def log(self, t):
+            self.n += 1
+
+        def flush(self):
+            self.flushed += 1
+
+    def attempt(label: str, flt, case: Dict[str, Any]) -> None:
+        res.states += 1
+        res.evaluations += 1
+        res.validated += 1
+        res.transitions += 4
+        lg = Lg()
+        before = sys.getprofile()
+        got: Any = None
+        try:
+            with trace_calls(lg, 0, flt):
+                got = ns["work"](1)
+        except BaseException as e:  # noqa: BLE001
+            res.violate(Violation(ID, "exception-differs", "code-filter-failure-reaches-the-program", case, f"{label}: the traced workload raised {e!r}; untraced it returns {want!r}"))
+            sys.setprofile(before)
+            return
+        if got != want:
+            res.violate(Violation(ID, "result-differs", "code-filter-failure-reaches-the-program", case, f"{label}: traced result {got!r}, untraced {want!r}"))
+        if sys.getprofile() is not before:
+            res.violate(Violation(ID, "profiler", "code-filter-failure:profiler-not-restored", case, f"{label}: profiler after the block is {sys.getprofile()!r}"))
+            sys.setprofile(before)
+        if lg.flushed != 1:
+            res.violate(Violation(ID, "flush", "code-filter-failure:flush-count", case, f"{label}: logger flushed {lg.flushed} times"))
+        res.nontrivial_n += 1
+
+    old = os.environ.pop("MONKEYTYPE_TRACE_MODULES", None)
+    try:
+        attempt("shipped default filter, file name under a symlink loop", default_code_filter, {"kind": "FILTER", "pos": "symlink-loop", "faults": [], "raise": False, "profiler": False, "filter_stage": True})
+    finally:
+        if old is not None:
+            os.environ["MONKEYTYPE_TRACE_MODULES"] = old
+    # a counting run first: how often is the filter consulted for this workload?
+    count = {"n": 0}
+
+    def counting(code):
+        count["n"] += 1
+        return True
+
+    with trace_calls(Lg(), 0, counting):
+        ns["work"](1)
+    total = count["n"]
+    if total < 6:
+        raise HarnessError(f"filter consulted only {total} times for three calls")
+    sets = [(i,) for i in range(1, total + 1)] + [(i, j) for i in range(1, total + 1) for j in range(i + 1, total + 1)]
+    for fs in sets:
+        seen = {"n": 0}
+
+        def failing(code, fs=fs, seen=seen):
+            seen["n"] += 1
+            if seen["n"] in fs:
+                raise RuntimeError(f"injected filter failure at consultation {seen['n']}")
+            return True
+
+        attempt(f"user filter raising at consultations {list(fs)} of {total}", failing, {"kind": "FILTER", "pos": "user-filter", "faults": list(fs), "raise": False, "profiler": False, "filter_stage": True})
+    res.oblige("code-filter-faults", True)
     return res
 
 
@@ -588,6 +676,8 @@ def cli_differential(ctx: Ctx) -> Result:
 
 
 def replay(case: Dict[str, Any], ctx: Ctx) -> List[Violation]:
+    if case.get("filter_stage"):
+        return filter_fault_stage(ctx).violations
     if case.get("cli"):
         return cli_differential(ctx).violations
     M, T, files = load(ctx)
